@@ -155,6 +155,52 @@ def check(prog, rep):
         rep.ob("R10.1", "_make_constraint", ok, f"normalises to {src(b)}" if ok else f"normalises to `{src(b)}`; must be {lhs} - {rhs} (left minus right)", loc=f"{mk.module.rel}:{b.lineno}", detail=f"normalisation:{'expr-rhs' if src(b.right) == rhs else 'scalar-rhs'}")
     if nsub == 0:
         raise AnalysisError("_make_constraint: normalisation lhs - rhs not found")
+    # the right-hand side per kind (walked symbolically; helper conversions, also imported ones, are followed):
+    #   Python number -> Constant(rhs) / Constant(float(rhs));  Expression -> rhs itself;
+    #   anything else (NumPy scalar, 0-d array) -> Constant(float(rhs))  -- the float() is what turns a narrow / unsigned
+    #   NumPy scalar into a Python float; Constant() alone keeps its dtype and `x - np.uint8(3)` then wraps around
+    from ..symexec import SymWalker
+
+    for kind in ("number", "expression", "other"):
+        def facts(t, kind=kind):
+            if isinstance(t, ast.Call) and dotted(t.func) == "isinstance" and len(t.args) == 2:
+                what, ks = t.args[0], src(t.args[1])
+                if isinstance(what, ast.Call) and dotted(what.func) == "Constant":
+                    return "Expression" in ks or "Constant" in ks
+                if src(what) == rhs:
+                    if "int" in ks and "float" in ks and "Expression" not in ks:
+                        return kind == "number"
+                    if "Expression" in ks:
+                        return kind == "expression" if "int" not in ks else kind in ("expression", "number")
+                    if "Number" in ks:
+                        return kind == "number"
+                return None
+            return None
+
+        w = SymWalker(prog, mk.module, facts, lambda st, env: None, non_none=())
+        try:
+            vals = w.returns(mk, {})
+        except Exception as e:
+            rep.undecided(f"_make_constraint: symbolic walk failed ({type(e).__name__})")
+            break
+        exprs = set()
+        for v in vals:
+            if isinstance(v, ast.Call) and dotted(v.func) == "Constraint":
+                kw_ = {k.arg: k.value for k in v.keywords if k.arg}
+                e_ = kw_.get("expr", v.args[0] if v.args else None)
+                exprs.add(src(e_).replace(" ", "") if e_ is not None else "?")
+        if not exprs:
+            rep.undecided(f"_make_constraint: no Constraint(...) returned for a right-hand side of kind {kind}")
+            continue
+        want = {"number": {f"{lhs}-Constant({rhs})", f"{lhs}-Constant(float({rhs}))"}, "expression": {f"{lhs}-{rhs}"}, "other": {f"{lhs}-Constant(float({rhs}))"}}[kind]
+        okk = exprs <= want
+        if not okk and any("(" in e_.replace(f"Constant(float({rhs}))", "").replace(f"Constant({rhs})", "") for e_ in exprs):
+            rep.undecided(f"_make_constraint: conversion of a right-hand side of kind {kind} not resolved ({sorted(exprs)[0][:50]})")
+            continue
+        what = {"number": "a Python number", "expression": "an Expression", "other": "any other scalar (NumPy scalar, 0-d array)"}[kind]
+        rep.ob("R10.1", "_make_constraint", okk, f"{what}: the constraint expression is {sorted(want)[0]}" if okk else
+               f"for {what} the constraint expression is `{sorted(exprs)[0][:60]}`; it must be {sorted(want)[-1]}" + (" (without float() a NumPy scalar keeps its dtype: x <= np.uint8(3) evaluates x - 3 in uint8 and wraps around)" if kind == "other" else ""),
+               loc=mk.loc, detail=f"rhs-conversion:{kind}", robust=True)
     cons = [c for c in calls(mk.node) if dotted(c.func) == "Constraint"]
     for c in cons:
         kw = {k.arg: k.value for k in c.keywords if k.arg}
